@@ -239,6 +239,11 @@ def catalogue(tier, rng, families=None, max_n=64, long_bch=False, rm5=False, all
                 if a == 0:
                     add(Entry("Cyclic(n=%d,h=%s)/left" % (n, bin(hq)), "cyclic", (n, g), (lambda n=n, hq=hq: E.CyclicCodeEncoder(code_length=n, check_polynomial=hq)),
                               info="left", cyclic=True, gpoly=g, component="CyclicCodeEncoder", extra={"k": kk, "given_by": "check_polynomial"}))
+                    # ... and with the other layouts (two constructor options that each work alone: h(X) only, and a listed information set)
+                    for info, iset in infos[1:4]:
+                        add(Entry("Cyclic(n=%d,h=%s)/%s" % (n, bin(hq), info), "cyclic", (n, g),
+                                  (lambda n=n, hq=hq, iset=iset: E.CyclicCodeEncoder(code_length=n, check_polynomial=hq, information_set=iset)),
+                                  info=info, cyclic=True, gpoly=g, component="CyclicCodeEncoder", extra={"k": kk, "given_by": "check_polynomial"}))
     # --- BCH: every Bose distance
     from kaira.models.fec.encoders.bch_code import get_valid_bose_distances
     for mu in range(2, 7):
